@@ -17,7 +17,7 @@ NATIVE = {
     "C05": ["merkle.reference_tree", "dep.flat_tree_model"],
     "C06": ["oplog.open_js_layout", "bitfield.open", "bitfield.from_data", "merkle.reference_tree"],
     "C07": ["e2e.torn_writes", "oplog.open_js_layout"],
-    "C08": ["bitfield.ranges", "bitfield.open", "bitfield.from_data", "e2e.list_model_pages", "e2e.list_model"],
+    "C08": ["bitfield.ranges", "bitfield.open", "bitfield.from_data", "e2e.list_model_pages", "e2e.list_model", "e2e.replica_contiguous"],
     "C09": ["proofs.requests_no_panic", "proofs.requests_exhaustive_small", "proofs.arbitrary_proofs_refused", "dep.flat_tree_model"],
     "C10": ["e2e.fault_injection"],
     "C11": ["codec.wire_reference"],
